@@ -19,8 +19,9 @@ func init() {
 	families["c06"] = &Family{Run: runC06, Random: randomC06}
 }
 
-// ids 1..11 -> adversarial finite values (11, the most negative finite value, is used by the Extremes family only); 97..99 -> non-finite
-var c06Pool = []float64{0, math.Copysign(0, -1), 0.1, 1e21, 1e-7, 123456789.123456789, -1.5, 5e-324, 1.7976931348623157e308, 12345678.9, -1.7976931348623157e308}
+// ids 1..14 -> adversarial finite values (11-14 are used by the Extremes family only); 97..99 -> non-finite
+var c06Pool = []float64{0, math.Copysign(0, -1), 0.1, 1e21, 1e-7, 123456789.123456789, -1.5, 5e-324, 1.7976931348623157e308, 12345678.9, -1.7976931348623157e308,
+	float64(float32(0.1)), float64(math.MaxFloat32), float64(float32(52.3716))} // 12-14: exactly representable in 32 bits, with a long shortest 64-bit form
 
 func c06Dec(v interface{}) float64 {
 	id := num(v)
